@@ -29,6 +29,8 @@
 (*    allOf[s, true] == s,  anyOf[s, false] == s,  oneOf[s, s] fails,       *)
 (*    if s then true else false == s,   (dialects that have the keywords)   *)
 (*    a reference to s through $defs / definitions == s.                    *)
+(* (checked on a sample of the base universe, in the "atoms" and "ident"    *)
+(* configurations)                                                          *)
 (*                                                                          *)
 (* Field "dev" of a case lists the known-deviation classes (KnownDeviations,*)
 (* notes/C11.md) whose trigger predicate the schema satisfies;              *)
@@ -180,6 +182,13 @@ Annot(dd) ==
         ELSE { <<"prefixItems", Ar(<<TInt>>)>>, <<"prefixItems", Ar(<<TInt, T>>)>>, <<"minContains", I(0)>>, <<"maxContains", I(1)>> })
 Uneval(dd) == { <<"unevaluatedProperties", F>>, <<"unevaluatedItems", F>>, <<"unevaluatedProperties", TInt>>, <<"unevaluatedItems", TInt>> }
 
+(* Keywords added beside an applicator after a Nest step.                    *)
+Sibs(dd) ==
+  { <<"required", Ar(<<JStr(A)>>)>>, <<"additionalProperties", F>>, <<"type", Str("object")>>, <<"type", Str("array")>>, <<"minProperties", I(2)>>,
+    <<"maxItems", I(1)>>, <<"properties", O1(A, TInt)>>, <<"items", TInt>>, <<"not", TInt>> }
+  \cup (IF Rank(dd) >= 8 THEN { <<"unevaluatedProperties", F>>, <<"unevaluatedItems", F>> } ELSE { <<"additionalItems", F>> })
+  \cup (IF Rank(dd) >= 6 THEN { <<"const", O1(A, I(1))>> } ELSE { <<"enum", Ar(<<O1(A, I(1))>>)>> })
+
 (* Reference keywords: definitions containers, references, anchors.         *)
 DefsKw(dd) == IF Rank(dd) >= 8 THEN "$defs" ELSE "definitions"
 DefsPtr(dd, k) == IF Rank(dd) >= 8 THEN <<35, 47, 36, 100, 101, 102, 115, 47>> \o k          \* "#/$defs/" k
@@ -195,7 +204,6 @@ Refs(dd) ==
                                         <<35, 47>> \o S("properties") \o <<47>> \o A, <<35, 47>> \o S("items"), <<35, 47>> \o S("items") \o <<47, 48>>,
                                         <<35, 47>> \o S("allOf") \o <<47, 48>>, <<35, 47>> \o S("not"), <<35, 47>> \o S("additionalProperties"),
                                         <<35, 47>> \o S("prefixItems") \o <<47, 48>> } }
-  \cup (IF Rank(dd) >= 8 THEN { <<"definitions", O1(A, TInt)>>, <<"$ref", JStr(<<35, 47>> \o S("definitions") \o <<47>> \o A)>> } ELSE {})
 
 Alpha(dd, name) ==
   CASE name = "full" -> Asrt(dd, "full") \cup Appl(dd, "full")
@@ -205,6 +213,7 @@ Alpha(dd, name) ==
     [] name = "appl" -> Appl(dd, "full")
     [] name = "annot" -> Annot(dd)
     [] name = "uneval" -> Uneval(dd)
+    [] name = "sibs" -> Sibs(dd)
     [] name = "refs" -> Refs(dd)
     [] name = "refsmid" -> Refs(dd) \cup Asrt(dd, "core") \cup Appl(dd, "core")
 
@@ -277,11 +286,13 @@ Ne(a) == <<"nest", a>>
 Plan ==
   CASE PlanName = "base" -> <<>>
     [] PlanName = "atoms" -> <<Ad("full")>>
-    [] PlanName = "pairs" -> <<Ad("full"), Ad("mid")>>
+    [] PlanName = "ident" -> <<Ad("core"), Ne("all")>>
+    [] PlanName = "pairs_q" -> <<Ad("mid"), Ad("mid")>>
+    [] PlanName = "pairs_t" -> <<Ad("full"), Ad("mid")>>
     [] PlanName = "nest1" -> <<Ad("full"), Ne("all")>>
-    [] PlanName = "nest2" -> <<Ad("mid"), Ne("struct"), Ne("struct")>>
-    [] PlanName = "sib" -> <<Ad("mid"), Ne("struct"), Ad("core")>>
-    [] PlanName = "triples" -> <<Ad("mid"), Ad("mid"), Ad("core")>>
+    [] PlanName = "nest2" -> <<Ad("core"), Ne("struct"), Ne("struct")>>
+    [] PlanName = "sib" -> <<Ad("core"), Ne("struct"), Ad("sibs")>>
+    [] PlanName = "triples" -> <<Ad("core"), Ad("core"), Ad("core")>>
     [] PlanName = "uneval" -> <<Ad("annot"), Ne("inplace"), Ad("uneval")>>
     [] PlanName = "uneval2" -> <<Ad("annot"), Ad("annot"), Ne("inplace"), Ad("uneval")>>
     [] PlanName = "refs" -> <<Ad("refsmid"), Ad("refs"), Ad("refs")>>
@@ -365,8 +376,35 @@ Steered == SetToSeq(Steer(d, s, s, 4) \ BaseSet)
 DontCare(dd, root) ==
   IF dd = "d2019" /\ UsesKw(dd, root, "contains") /\ UsesKw(dd, root, "unevaluatedItems") THEN {"d2019-contains-unevaluatedItems"} ELSE {}
 
-(* Known deviations of the implementation (classification only).            *)
-DevOf(dd, root) == {}
+(* Known deviations of the implementation (classification only; the        *)
+(* predicate says which schemas CAN trigger the deviation - notes/C11.md).  *)
+(*  ojson-member-order      equality of objects in enum / const /            *)
+(*     uniqueItems is member-order sensitive when the schema is compiled     *)
+(*     for ojson (V 6.1.2 / 6.1.3 / 6.4.3 use JSON value equality)           *)
+(*  not-keeps-annotations   "not" keeps the evaluated-member / evaluated-    *)
+(*     item annotations its subschema produced before it failed, so an       *)
+(*     outer unevaluatedProperties / unevaluatedItems skips them             *)
+(*     (C 2019-09 7.7.1.2 / 9.2.1.4: a failing subschema contributes no      *)
+(*     annotations)                                                          *)
+RECURSIVE HasWideObj(_)
+HasWideObj(v) == CASE v[1] = "obj" -> Cardinality(DOMAIN v[2]) >= 2 \/ \E k \in DOMAIN v[2] : HasWideObj(v[2][k])
+                   [] v[1] = "arr" -> \E j \in 1..Len(v[2]) : HasWideObj(v[2][j])
+                   [] OTHER -> FALSE
+AnnotKws == {"properties", "additionalProperties", "items", "prefixItems", "additionalItems", "contains", "unevaluatedProperties",
+             "unevaluatedItems", "$ref"}
+Trigger(name, dd, root) ==
+  CASE name = "ojson-member-order" ->
+         \E y \in Subs(dd, root) : y[1] = "obj" /\
+            \/ (S("uniqueItems") \in DOMAIN y[2] /\ y[2][S("uniqueItems")] = T)
+            \/ (S("enum") \in DOMAIN y[2] /\ HasWideObj(y[2][S("enum")]))
+            \/ (S("const") \in DOMAIN y[2] /\ HasWideObj(y[2][S("const")]))
+    [] name = "not-keeps-annotations" ->
+         /\ Rank(dd) >= 8
+         /\ UsesKw(dd, root, "unevaluatedProperties") \/ UsesKw(dd, root, "unevaluatedItems")
+         /\ \E y \in Subs(dd, root) : y[1] = "obj" /\ S("not") \in DOMAIN y[2] /\
+               \E z \in Subs(dd, y[2][S("not")]) : z[1] = "obj" /\ \E k \in AnnotKws : S(k) \in DOMAIN z[2]
+    [] OTHER -> FALSE
+DevOf(dd, root) == { name \in KnownDeviations : Trigger(name, dd, root) }
 
 -----------------------------------------------------------------------------
 Code(st) == CASE st = "ok" -> 1 [] st = "bad" -> 0 [] st = "loop" -> 2
@@ -383,9 +421,10 @@ Emit == IF pc = 0 THEN (PlanName = "base" => PrintT(ToJson(BaseCase)))
 Same(x, y) == x = y \/ x = "loop" \/ y = "loop"
 Vd(x, v) == Ev(d, s, x, v, {}).st
 RefFree(x) == \A y \in Subs(d, x) : y[1] = "obj" => S("$ref") \notin DOMAIN y[2]
+IdSample == { j \in 1..Len(BaseSeq) : (j % 3) = 1 } \cup {36, 46, 52}
 Identities ==
   (pc >= 2 /\ WF) =>
-    \A j \in 1..Len(BaseSeq) :
+    \A j \in IdSample :
       LET v == BaseSeq[j]
           b == Vd(s, v)
       IN /\ Same(Vd(K1("not", K1("not", s)), v), b)
